@@ -506,6 +506,8 @@ fn sec_inputs(i: &Inputs) -> BTreeMap<&'static str, String> {
     // token of the MTXF the serializer documents it writes when none was supplied (WotLK+):
     // one zero flag word per texture.  Which of the two applies is decided by the specification.
     m.insert("mtxf0", dtok(&Some(MtxfChunk { flags: vec![0; i.textures.len()] })));
+    // token of an absent optional section (Debug of Option::None), for the specification's version rules
+    m.insert("none", dtok(&None::<MtxfChunk>));
     m
 }
 
@@ -526,6 +528,7 @@ fn sec_parsed(r: &RootAdt) -> BTreeMap<&'static str, String> {
         &bm,
     );
     m.insert("mtxf0", "-".into());
+    m.insert("none", "-".into());
     m
 }
 
@@ -535,7 +538,7 @@ fn sec_json(m: &BTreeMap<&'static str, String>) -> Value {
 fn sec_empty() -> Value {
     let keys = [
         "tex", "mdl", "wmo", "ddf", "modf", "mfbo", "mh2o", "mtxf", "mamp", "mtxp", "bmesh", "khdr", "mcvt", "mcnr", "mcly", "mcrf", "mcal",
-        "mcsh", "mccv", "mclq", "mcse", "mclv", "xsub", "mtxf0",
+        "mcsh", "mccv", "mclq", "mcse", "mclv", "xsub", "mtxf0", "none",
     ];
     Value::Object(keys.iter().map(|k| (k.to_string(), Value::String("-".into()))).collect())
 }
